@@ -340,10 +340,35 @@ class GraphInitializers(collections.UserDict[str, "_core.Value"]):
     def update(self, other=(), /, **kwargs) -> None:
         """Update the initializers. Every item is checked before any of them is set."""
         items = dict(other, **kwargs)
+        unnamed_value_keys: dict[int, str] = {}
         for key, value in items.items():
             self._check_item(key, value)
+            if not value.name:
+                # An unnamed value is named after its key: it cannot be stored under two keys
+                first_key = unnamed_value_keys.setdefault(id(value), key)
+                if first_key != key:
+                    raise ValueError(
+                        f"Value '{value}' is given under two different keys: '{first_key}' and '{key}'"
+                    )
         for key, value in items.items():
             self[key] = value
+
+    def copy(self) -> dict[str, _core.Value]:  # type: ignore[override]
+        """Return a shallow copy as a plain dictionary that is detached from the graph."""
+        return self.data.copy()
+
+    def __ior__(self, other):
+        """Update the initializers in place, with the same checks as :meth:`update`."""
+        self.update(other)
+        return self
+
+    def __or__(self, other) -> dict[str, _core.Value]:  # type: ignore[override]
+        """Return the union as a plain dictionary that is detached from the graph."""
+        return self.data | dict(other)
+
+    def __ror__(self, other) -> dict[str, _core.Value]:  # type: ignore[override]
+        """Return the union as a plain dictionary that is detached from the graph."""
+        return dict(other) | self.data
 
     def add(self, value: _core.Value) -> None:
         """Add an initializer to the graph."""
